@@ -162,6 +162,11 @@ def run(ctx, rep):
     rep.rule("R01.4", "truncate maps index to TruncateAfter(purged | log[index-1].log_id | LogIndexNotFound); purge journals only when log_index(upto) >= next_log_index(purged)")
     rep.rule("R01.7", "read() ranges over the index map and yields the entry's own log id with the cached or disk payload (shared with R07.5)")
     key = _tables(ctx, rep)
+    # R01.8: chunk splitting is invisible: the State record at the head of a new chunk is the stored state itself (= R02.4)
+    rep.rule("R01.8", "= R02.4: the head snapshot of every new chunk is the stored state after the filling record (chunk limits are invisible)")
+    import c02
+    from c03 import _Filter
+    c02.r02_4(ctx, _Filter(rep, keep=("R02.4",), rename="R01.8/"))
     r01_5(ctx, rep, key)
     r01_1_2(ctx, rep)
     r01_4(ctx, rep)
